@@ -167,10 +167,16 @@ func (c01) Gen(seed uint64, run int, tier string) *core.Case {
 			}
 			op.MetaDir = []string{"", "COPY", "REPLACE"}[r.IntN(3)]
 			op.TagDir = []string{"", "COPY", "REPLACE"}[r.IntN(3)]
+			if written[op.Key] && r.IntN(4) == 0 {
+				op.Src = op.Key // onto itself
+			}
 			if op.Src == op.Key {
 				op.MetaDir = "REPLACE"
 			}
 			op.Hdrs, op.Meta, op.Tags = genContentHeaders(r), genMeta(r), genTags(r)
+			if r.IntN(3) == 0 {
+				op.Algo = s3c.TrailerAlgos[r.IntN(len(s3c.TrailerAlgos))] // x-amz-checksum-algorithm of the copy
+			}
 			written[op.Key] = true
 		case x < 53:
 			op.Kind = "puttags"
@@ -516,6 +522,9 @@ func (c01) Exec(c *core.Case) (out *core.Outcome) {
 			}
 			if op.TagDir == "REPLACE" && len(op.Tags) > 0 {
 				h = append(h, KV{K: "X-Amz-Tagging", V: s3c.TaggingHeader(op.Tags)})
+			}
+			if op.Algo != "" {
+				h = append(h, KV{K: "X-Amz-Checksum-Algorithm", V: strings.ToUpper(op.Algo)})
 			}
 			res := cl.Do(s3c.CopyObject(bkt, key, bkt, p.Keys[op.Src], h...))
 			if !res.Resp.OK() {
